@@ -212,6 +212,7 @@ def explore(ctx):
             cases.append({"keys": [list(p) for p in NONSHEAR + sub], "strain": "field"})
     results = ctx.run(MOD, "run_case", cases, part="requests", chunksize=8,
                       transitions=sum(len(c["keys"]) for c in cases))
+    ctx.run_under(MOD, "run_case", [c for c in cases if len(c["keys"]) == 21][:3], ("-O",))
     keysets = [PAIRS, [(4, 4), (5, 6), (1, 1)], [(1, 5), (6, 6)], NONSHEAR]
     steps = [(s, [list(p) for p in ks]) for s in ("const", "thirds", "field", "two-equal") for ks in keysets]
     reuse = [{"steps": [a, b]} for a in steps for b in steps]
